@@ -32,6 +32,9 @@ def run(ctx):
         s["every_prefix"] = False
     ctx.distinct = tc.distinct(programs + subs)
     tc.judge(ctx, programs, "c04")
+    # the seeded programs again on the build with integer-overflow checks and debug assertions
+    vlib.run_and_judge(ctx, rnd[:1500], "Trace_Tables.cfg", "Trace_Tables.tla", "c04chk", profile="checked")
+    ctx.extra["builds"] = ["release", "checked (overflow checks + debug assertions) for the seeded programs"]
     vlib.run_and_judge(ctx, subs, "Trace_Sub.cfg", "Trace_Sub.tla", "c04s")
     return vlib.finish(ctx, rule="builder programs over all 21 table kinds and all entry types: MC_Tables histories with "
                        "field-identifying argument patterns + seeded random programs whose scalars are biased to boundaries, "
